@@ -761,6 +761,49 @@ func (env *rEnv) call(n *rNode) Value {
 		if len(n.Args) == 2 && n.Args[0].Op == "str" && n.Args[1].Op == "str" {
 			return sym(BoolLit(schemaHasUnique(e.schemaText, n.Args[0].Text, n.Args[1].Text)))
 		}
+	case "mapid":
+		// mapid(x): identity of the Go map x denotes (a map value, an interface holding one, or a decoded JSON object)
+		v := env.eval(n.Args[0])
+		if iv, ok := v.(VIface); ok {
+			v = iv.V
+		}
+		switch x := v.(type) {
+		case VMap:
+			return sym(IntLit(int64(x.Cell)))
+		case VAbs:
+			if x.Kind == "json" {
+				if jt, ok := x.Data.(Term); ok {
+					if cell, ok := env.post.jsonMaps["jsonmap:"+jt.S]; ok {
+						return sym(IntLit(int64(cell)))
+					}
+				}
+			}
+		}
+		return env.fail("mapid: %s is not a map (%s)", nodeText(n.Args[0]), showValue(v))
+	case "writtenmap", "writtenkey":
+		// the map / key of the last map update or delete on this path
+		for i := len(env.post.trace) - 1; i >= 0; i-- {
+			if ev := env.post.trace[i]; (ev.Kind == "mapupdate" || ev.Kind == "mapdelete") && ev.Terms != nil {
+				key := "m"
+				if n.Text == "writtenkey" {
+					key = "k"
+				}
+				if t, ok := ev.Terms[key]; ok {
+					return sym(t)
+				}
+			}
+		}
+		return env.fail("no map write on this path")
+	case "mapwasread":
+		// mapwasread(id, key): some lookup on this path read that key of that map
+		id, key := argT(0), argT(1)
+		var alts []Term
+		for _, ev := range env.post.trace {
+			if ev.Kind == "mapread" && ev.Terms != nil {
+				alts = append(alts, And(Eq(ev.Terms["m"], id), Eq(ev.Terms["k"], key)))
+			}
+		}
+		return sym(Or(alts...))
 	case "stmtText":
 		// stmtText(i): the text of the i-th SQL statement issued on this path
 		if idx, ok := constIndex(env.eval(n.Args[0])); ok {
